@@ -3,6 +3,8 @@
 package rosmar
 
 import (
+	"context"
+
 	sgbucket "github.com/couchbase/sg-bucket"
 )
 
@@ -130,4 +132,64 @@ func Harness_C19_queryNullFirstColumn() {
 	if len(rows) > 0 {
 		verifReach("rows")
 	}
+}
+
+// C19: the iterator's Next / One / Close over the same result: Next parses the first row,
+// One does the same and closes, an empty result is ErrNoRows, on both iterator kinds.
+func Harness_C19_iteratorNextOne() {
+	inMemory := verifChoose("mem", 2) == 0
+	env := verifWorld(inMemory, 2, 2)
+	c := env.colls[0]
+	ctx := context.Background()
+	const q = `SELECT body FROM $_keyspace`
+	var live, valid []bool
+	var want [][]byte
+	for i := 0; i < verifDocSlots(env.db); i++ {
+		d := verifDocSlot(env.db, i)
+		live = append(live, verifAnd(d.Present, d.Coll == 1, d.Value != nil))
+		r := verifConcat(verifConcat([]byte(`{"body":`), d.Value), []byte(`}`))
+		want = append(want, r)
+		valid = append(valid, verifJSONValid(r))
+	}
+	n := verifCount(live...)
+	it, err := c.Query(sgbucket.SQLiteLanguage, q, nil, sgbucket.RequestPlus, true)
+	verifAssert(err == nil, "query succeeds")
+	if err != nil {
+		return
+	}
+	var v any
+	ok := it.Next(ctx, &v)
+	if ok {
+		m := false
+		for i := range want {
+			m = verifOr(m, verifAnd(live[i], valid[i], verifBytesEq(verifAnyJSON(v), verifJSONCanon(want[i]))))
+		}
+		verifAssert(m, "Next yields the parsed row of a live document of this collection")
+		verifReach("next-row")
+	} else {
+		bad := false
+		for i := range want {
+			bad = verifOr(bad, verifAnd(live[i], !valid[i]))
+		}
+		verifAssert(verifOr(n == 0, bad), "Next fails only at the end of the result or on a row that is not JSON")
+		if n == 0 {
+			verifAssert(it.Close() == nil, "an exhausted iterator closes cleanly")
+			verifReach("next-none")
+		}
+	}
+	it2, err := c.Query(sgbucket.SQLiteLanguage, q, nil, sgbucket.RequestPlus, true)
+	verifAssert(err == nil, "query succeeds")
+	if err != nil {
+		return
+	}
+	var v2 any
+	oneErr := it2.One(ctx, &v2)
+	verifAssert((oneErr == nil) == ok, "One succeeds exactly when Next yields a first row")
+	if oneErr == nil {
+		verifAssert(verifBytesEq(verifAnyJSON(v2), verifAnyJSON(v)), "One yields the same first row as Next")
+	} else {
+		verifAssert(oneErr == sgbucket.ErrNoRows, "One without a row is ErrNoRows")
+	}
+	// One closed the iterator: the connection is free again (in-memory buckets have just one)
+	verifAssert(verifProbe(env.b, "probe") == nil, "after One the bucket is usable (iterator closed)")
 }
